@@ -192,6 +192,19 @@ CHECKS = {
             "Tolerance 1e-5 relative; new buffers registered on user-placed layers in import mode "
             "are tolerated (they are neither parameters nor outputs).",
             "DESIGN.md 4/C07"),
+    'C18': ("model-based / twin differential testing of call histories: exhaustive short sequences "
+            "+ Hypothesis histories of observers and mutators with full-state snapshots",
+            "All sequences of length <= 2 (thorough <= 3) over the 11-call alphabet on four fixed "
+            "models, and Hypothesis histories up to length 8 on generated PIT / SuperNet / MPS "
+            "models; after every observer (export, export(add_bn=False), summary, str, cost, "
+            "get_cost+gradient, cost_specification swap and back) the snapshot of the model (eval "
+            "output on a deep copy, every cost value and its gradient, summary, state_dict, all "
+            ".training flags, deep-copyability) must be bit-identical, repeated exports identical, "
+            "swapped specs in effect, and a twin that only received the mutators (forward, training "
+            "step, train/eval) must end bit-identical.",
+            "Snapshots are taken with the library's own accessors; dropout excluded; RNG reseeded "
+            "per mutator so that twins are comparable under Gumbel sampling.",
+            "DESIGN.md 4/C18"),
 }
 
 NOT_YET = "check not built yet in this session; planned with property-based testing per DESIGN.md section 4"
